@@ -718,6 +718,13 @@ class Interp:
                 return IntV(self.fresh_int(st, key, 0, 1))
             la, lb = a.lin, b.lin
             cond = (base.lower(), la, lb)
+            if base in ("Eq", "Ne"):
+                for x, y in ((a, b), (b, a)):
+                    if x.cond is not None and x.cond[0] == "discr":
+                        cy = st.const_of(y.lin)
+                        if cy is not None:
+                            cond = ("deq", x.cond[1], x.cond[2], cy, base == "Ne", la, lb)
+                            break
             t = self.prove_cond(st, cond, True)
             if t:
                 return IntV(Lin.const(1), cond)
@@ -916,6 +923,12 @@ class Interp:
         """Linear facts (>= 0) equivalent to cond == truth, or None when not
         expressible as a conjunction; second result: disequalities."""
         op = cond[0]
+        if op == "deq":
+            eq = truth != cond[4]
+            a, b = cond[5], cond[6]
+            if eq:
+                return ([a.sub(b), b.sub(a)], [])
+            return ([], [a.sub(b)])
         if op == "not":
             return self.cond_lins(cond[1], not truth)
         if op in ("lt", "le", "gt", "ge", "eq", "ne"):
@@ -952,6 +965,25 @@ class Interp:
         return True
 
     def assume_cond(self, st, cond, truth):
+        if cond[0] == "deq":
+            eq = truth != cond[4]
+            idx = self.idx_of_discr(cond[2], cond[3])
+            paths = list(cond[1])
+            if idx is not None:
+                if eq:
+                    if not self.restrict_enum(st, paths, {idx}):
+                        return False
+                else:
+                    vals = [self.read_path(st, p) for p in paths]
+                    keep = set()
+                    for x in vals:
+                        if isinstance(x, EnumV):
+                            keep |= set(x.variants) - {idx}
+                        else:
+                            keep = None
+                            break
+                    if keep is not None and not (keep and self.restrict_enum(st, paths, keep)):
+                        return False
         r = self.cond_lins(cond, truth)
         if r is None:
             return True
@@ -1289,6 +1321,11 @@ class Interp:
                 v = self.eval_rvalue(fr, st, s.rv, s.place.ty, (fr.fid, bb, i, k))
                 if isinstance(v, BotV) and s.rv.k != "use":
                     pass
+                if s.place.local == 0 and not s.place.proj and self.observers:
+                    for ob in self.observers:
+                        h = getattr(ob, "on_ret_assign", None)
+                        if h is not None:
+                            h(self, fr, bb, v, st)
                 self.write_place(fr, st, s.place, v, (bb, i))
             elif s.k == "setdiscr":
                 pass
